@@ -450,6 +450,7 @@ class CrashWorld(World):
     def _run(self, variants, bucket_level, call, *a, **k):
         """Issue writes to the model, run the real call with crash points armed, mark returned."""
         m = self.model
+        n_before = m.n
         m.issue(variants, bucket_level)
         self.inflight = True
         t_issue = seams.CLOCK.peek()
@@ -464,6 +465,7 @@ class CrashWorld(World):
         m.returned(bucket_level, self.autocommit)
         pt = self.crash_point("return")
         pt["t_issue"] = t_issue
+        pt["n_before"] = n_before
         pt["bucket_level"] = bucket_level
         pt["event_write"] = any(w.is_event for w in variants[ORDERS[0]])
         out["point"] = pt
